@@ -16,6 +16,7 @@ import (
 	"syscall"
 	"testing"
 	"time"
+	"unsafe"
 
 	"github.com/opencontainers/go-digest"
 	ocispec "github.com/opencontainers/image-spec/specs-go/v1"
@@ -64,6 +65,9 @@ type Case struct {
 	// Pack: how the files are packed: "" = PackManifest v1.1, "v1.0", "artifact"
 	// (the deprecated oras.Pack: OCI artifact manifest), "pack-image" (oras.Pack, image manifest)
 	Pack string `json:"pack,omitempty"`
+	// StaleDst: the destination working directory already holds older, longer
+	// files under the names of the items that are restored as single files
+	StaleDst bool `json:"staleDst,omitempty"`
 }
 
 var names = []string{"a", "b.txt", "with space", "дир-目录", ".hidden", "Makefile", strings.Repeat("long-name-", 11), "x_y", "é", "..data", "..2024_05_01", "...", "a..b"}
@@ -127,6 +131,7 @@ func genCase(t *rapid.T) Case {
 	c := Case{Mid: rapid.SampledFrom([]string{"memory", "oci", "file", "remote"}).Draw(t, "mid")}
 	c.Pack = rapid.SampledFrom([]string{"", "", "v1.0", "artifact", "pack-image"}).Draw(t, "pack")
 	c.Reproducible = rapid.Bool().Draw(t, "reproducible")
+	c.StaleDst = rapid.IntRange(0, 2).Draw(t, "staleDst") == 0
 	c.Preserve = rapid.Bool().Draw(t, "preserve")
 	c.SkipUnpack = rapid.IntRange(0, 4).Draw(t, "skipUnpack") == 0
 	c.ForceCAS = rapid.IntRange(0, 4).Draw(t, "forceCAS") == 0
@@ -213,6 +218,8 @@ func materialise(root string, it Item, reverse bool, dt int64) error {
 		n := nodes[i]
 		p := filepath.Join(base, filepath.FromSlash(n.Path))
 		if n.Type == "symlink" {
+			// a link has a modification time of its own (Chtimes would follow it)
+			lutimes(p, 1_500_000_000+n.MTime%1000+dt)
 			continue
 		}
 		os.Chmod(p, os.FileMode(n.Mode))
@@ -391,6 +398,21 @@ func runInner(c Case) (res vt.Result, fail *vt.Fail) {
 		return res, vt.Failf("C12/copy-to-intermediate-failed", "src -> %s: %v", c.Mid, err)
 	}
 	dstDir := filepath.Join(root, "dst")
+	if c.StaleDst {
+		for i, it := range c.Items {
+			if it.IsDir && !c.SkipUnpack {
+				continue
+			}
+			p := filepath.Join(dstDir, filepath.FromSlash(it.Name))
+			if err := os.MkdirAll(filepath.Dir(p), 0o755); err != nil {
+				return res, vt.Failf("harness/stale", "%v", err)
+			}
+			if err := os.WriteFile(p, bytes.Repeat([]byte{'S'}, int(layers[i].Size)+57), 0o644); err != nil {
+				return res, vt.Failf("harness/stale", "%v", err)
+			}
+			res.Classes = append(res.Classes, "restored-over-older-longer-file")
+		}
+	}
 	dst, err := file.New(dstDir)
 	if err != nil {
 		return res, vt.Failf("harness/file-new", "%v", err)
@@ -445,7 +467,14 @@ func runInner(c Case) (res vt.Result, fail *vt.Fail) {
 			materialised++
 			continue
 		}
-		if _, err := os.Lstat(dstPath); err != nil {
+		_, err := os.Lstat(dstPath)
+		if err == nil && c.StaleDst && !(it.IsDir && !c.SkipUnpack) {
+			// still the older file the harness put there: not restored
+			if b, rerr := os.ReadFile(dstPath); rerr == nil && bytes.Equal(b, bytes.Repeat([]byte{'S'}, int(layers[i].Size)+57)) {
+				err = fmt.Errorf("the older file is still in place")
+			}
+		}
+		if err != nil {
 			if c.ForceCAS && hasTwin(c.Items, i) && twinRestored(c.Items, i, dstDir) {
 				continue // ForceCAS: of several names with the same bytes at least one materialises
 			}
@@ -637,3 +666,20 @@ func TestMain(m *testing.M) {
 
 func TestLegs(t *testing.T)   { vt.TestLegs(t) }
 func TestReplay(t *testing.T) { vt.TestReplay(t) }
+
+// lutimes sets the access and modification time of path itself, not of what a
+// symbolic link at path points to (utimensat with AT_SYMLINK_NOFOLLOW).
+func lutimes(path string, sec int64) error {
+	p, err := syscall.BytePtrFromString(path)
+	if err != nil {
+		return err
+	}
+	ts := [2]syscall.Timespec{{Sec: sec}, {Sec: sec}}
+	const atFdCwd, atSymlinkNoFollow = -100, 0x100
+	fd := atFdCwd
+	_, _, e := syscall.Syscall6(syscall.SYS_UTIMENSAT, uintptr(fd), uintptr(unsafe.Pointer(p)), uintptr(unsafe.Pointer(&ts[0])), atSymlinkNoFollow, 0, 0)
+	if e != 0 {
+		return e
+	}
+	return nil
+}
